@@ -475,6 +475,145 @@ def caller_scenarios():
         do(ents[:1])
         return (lambda: do(ents)), [("x.idx.lock", "x.idx")]
     S["pack.py:write_pack_index via GitFile"] = packidx
+
+    # ---- remaining routines that write through the lock protocol (every `GitFile(..., "wb")` of dulwich/)
+    def _blobs(n, salt=b""):
+        return [Blob.from_string(salt + b"blob %d\n" % i * (i + 3)) for i in range(n)]
+
+    def midx_file(root):
+        from dulwich.midx import write_midx_file
+        p = os.path.join(root, "multi-pack-index")
+        e1 = [("pack-a.idx", [(bytes([i]) * 20, 12 + 30 * i, i) for i in range(1, 3)])]
+        e2 = [("pack-a.idx", [(bytes([i]) * 20, 12 + 30 * i, i) for i in range(1, 3)]),
+              ("pack-b.idx", [(bytes([i]) * 20, 12 + 30 * i, i) for i in range(3, 7)])]
+        write_midx_file(p, e1)
+        return (lambda: write_midx_file(p, e2)), [("multi-pack-index.lock", "multi-pack-index")]
+    S["midx.py:write_midx_file"] = midx_file
+
+    def commit_graph_module(root):
+        from dulwich.commit_graph import write_commit_graph
+        r = _repo(root)
+        t = Tree()
+        r.object_store.add_object(t)
+        ids, parent = [], []
+        for i in range(3):
+            c = Commit()
+            c.tree = t.id
+            c.parents = parent
+            c.author = c.committer = b"a <a@b>"
+            c.author_time = c.commit_time = 100 + i
+            c.author_timezone = c.commit_timezone = 0
+            c.message = b"g%d" % i
+            r.object_store.add_object(c)
+            parent = [c.id]
+            ids.append(c.id)
+        gd = os.path.join(root, ".git")
+        write_commit_graph(gd, r.object_store, [ids[0]])
+        return (lambda: write_commit_graph(gd, r.object_store, ids)), [(".git/objects/info/commit-graph.lock", ".git/objects/info/commit-graph")]
+    S["commit_graph.py:write_commit_graph"] = commit_graph_module
+
+    def _packfile(root, name, blobs):
+        from dulwich.object_format import DEFAULT_OBJECT_FORMAT
+        from dulwich.pack import write_pack
+        base = os.path.join(root, name)
+        write_pack(base, blobs, DEFAULT_OBJECT_FORMAT)
+        return base
+
+    def write_pack_both(root):
+        from dulwich.object_format import DEFAULT_OBJECT_FORMAT
+        from dulwich.pack import write_pack
+        base = _packfile(root, "wp", _blobs(2))
+        more = _blobs(5, b"x")
+        return (lambda: write_pack(base, more, DEFAULT_OBJECT_FORMAT)), [("wp.pack.lock", "wp.pack"), ("wp.idx.lock", "wp.idx")]
+    S["pack.py:write_pack"] = write_pack_both
+
+    def _create_index(version):
+        def setup(root):
+            from dulwich.object_format import DEFAULT_OBJECT_FORMAT
+            from dulwich.pack import PackData
+            base = _packfile(root, "ci", _blobs(4))
+            with open(base + ".idx", "wb") as f:
+                f.write(b"stale index content\n")
+            pd = PackData(base + ".pack", object_format=DEFAULT_OBJECT_FORMAT)
+            fn = getattr(pd, f"create_index_v{version}")
+            return (lambda: fn(base + ".idx")), [("ci.idx.lock", "ci.idx")]
+        return setup
+    for v in (1, 2, 3):
+        S[f"pack.py:PackData.create_index_v{v}"] = _create_index(v)
+
+    def pack_keep(root):
+        from dulwich.object_format import DEFAULT_OBJECT_FORMAT
+        from dulwich.pack import Pack
+        base = _packfile(root, "kp", _blobs(2))
+        pk = Pack(base, object_format=DEFAULT_OBJECT_FORMAT)
+        pk.keep(b"first")
+        return (lambda: pk.keep(b"second reason, longer than the first one")), [("kp.keep.lock", "kp.keep")]
+    S["pack.py:Pack.keep"] = pack_keep
+
+    def bitmap_file(root):
+        from dulwich.bitmap import write_bitmap
+        r = _repo(root)
+        t = Tree()
+        r.object_store.add_object(t)
+        ids, parent = [], []
+        for i in range(3):
+            c = Commit()
+            c.tree = t.id
+            c.parents = parent
+            c.author = c.committer = b"a <a@b>"
+            c.author_time = c.commit_time = 100 + i
+            c.author_timezone = c.commit_timezone = 0
+            c.message = b"b%d" % i
+            r.object_store.add_object(c)
+            parent = [c.id]
+            ids.append(c.id)
+        r.refs[b"refs/heads/master"] = ids[-1]
+        r.object_store.pack_loose_objects()
+        pk = list(r.object_store.packs)[0]
+        from dulwich.bitmap import generate_bitmap
+        rel = os.path.relpath(pk._basename + ".bitmap", root)
+        import inspect
+        def gen(refs):
+            return generate_bitmap(pk.index, r.object_store, refs, pk.get_stored_checksum())
+        bm1 = gen({b"refs/heads/a": ids[0]})
+        bm2 = gen({b"refs/heads/a": ids[0], b"refs/heads/b": ids[1], b"refs/heads/master": ids[2]})
+        write_bitmap(pk._basename + ".bitmap", bm1)
+        return (lambda: write_bitmap(pk._basename + ".bitmap", bm2)), [(rel + ".lock", rel)]
+    S["bitmap.py:write_bitmap"] = bitmap_file
+
+    def add_pack_idx(root):
+        # DiskObjectStore.add_pack / _complete_pack: the index of a received pack is written through the lock
+        import io
+        from dulwich.object_format import DEFAULT_OBJECT_FORMAT
+        from dulwich.object_store import DiskObjectStore
+        from dulwich.pack import write_pack_objects
+        os.makedirs(os.path.join(root, "objects", "info"), exist_ok=True)
+        os.makedirs(os.path.join(root, "objects", "pack"), exist_ok=True)
+        st = DiskObjectStore(os.path.join(root, "objects"))
+        buf = io.BytesIO()
+        entries, data_sum = write_pack_objects(buf.write, _blobs(3, b"ap"), object_format=DEFAULT_OBJECT_FORMAT)
+        from dulwich.pack import iter_sha1
+        name = iter_sha1(sorted(entries)).decode() if False else None
+        data = buf.getvalue()
+
+        def do():
+            f, commit, abort = st.add_pack()
+            try:
+                f.write(data)
+            except BaseException:
+                abort()
+                raise
+            commit()
+        # the pack name is only known after a reference run: discover it
+        probe = DiskObjectStore(os.path.join(root, "probe"))
+        os.makedirs(os.path.join(root, "probe", "pack"), exist_ok=True)
+        f, commit, abort = probe.add_pack()
+        f.write(data)
+        commit()
+        idx = [n for n in os.listdir(os.path.join(root, "probe", "pack")) if n.endswith(".idx")][0]
+        probe.close()
+        return do, [(f"objects/pack/{idx}.lock", f"objects/pack/{idx}")]
+    S["object_store.py:DiskObjectStore.add_pack[index]"] = add_pack_idx
     return S
 
 
@@ -579,7 +718,12 @@ def mode_caller_faults(ctx, tid0):
                     b.append(len(e["snap"][lockp] or b"") if False else b[-1] + e["n"])
             bounds[lockp] = b
         nrun = 0
-        for k in range(ncalls):
+        ks = list(range(ncalls))
+        if ctx.quick and ncalls > 60:
+            # long runs of identical writes (256 fan-out words of an index): both ends and a stride
+            step = max(1, ncalls // 24)
+            ks = sorted(set(ks[:14]) | set(ks[-14:]) | set(ks[::step]))
+        for k in ks:
             for ei, (ename, mk) in enumerate(excs):
                 if ctx.quick and (k + ei) % 2:
                     continue
